@@ -24,11 +24,11 @@ TOL = 1e-8
 
 
 @st.composite
-def charges(draw, cents):
+def charges(draw, cents, shells=None):
     n = draw(st.integers(1, 4))
     pos, q, cls = [], [], []
     for _ in range(n):
-        mode = draw(st.integers(0, 5))
+        mode = draw(st.integers(0, 7))
         a = cents[0]
         b = cents[min(1, len(cents) - 1)]
         if mode == 0:
@@ -37,6 +37,22 @@ def charges(draw, cents):
             p, c = list(b), "on-centre"
         elif mode == 2:
             p, c = [(x + y) / 2 for x, y in zip(a, b)], "midpoint"
+        elif mode >= 6 and shells is not None:
+            # placed so that the Boys argument p |P - C|^2 of a drawn primitive pair takes a drawn value (log-uniform
+            # 0.01..300): medium-range arguments are where series / asymptotic switch-overs of Boys functions live
+            sa, sb = shells[0], shells[min(1, len(shells) - 1)]
+            ea = sa["exps"][draw(st.integers(0, len(sa["exps"]) - 1))]
+            eb = sb["exps"][draw(st.integers(0, len(sb["exps"]) - 1))]
+            pp = ea + eb
+            P = [(ea * x + eb * y) / pp for x, y in zip(sa["coord"], sb["coord"])]
+            xarg = draw(gen.log_uniform(0.01, 300.0))
+            dist = (xarg / pp) ** 0.5
+            u = [draw(st.floats(-1, 1, allow_nan=False)) for _ in range(3)]
+            un = sum(t * t for t in u) ** 0.5
+            if un < 1e-2:
+                u, un = [0.0, 0.0, 1.0], 1.0
+            p = [x + dist * t / un for x, t in zip(P, u)]
+            c = "boys-target"
         elif mode == 5:
             p = list(a)
             ax = draw(st.integers(0, 2))
@@ -62,7 +78,7 @@ def charges(draw, cents):
 @st.composite
 def case_st(draw, la, lb):
     shells = draw(gen.basis(nmin=2, nmax=3, lmax=4, first_ls=(la, lb), kmax=3))
-    pos, q, cls = draw(charges([s["coord"] for s in shells]))
+    pos, q, cls = draw(charges([s["coord"] for s in shells], shells))
     return {"shells": shells, "coords": pos, "charges": q, "ccls": cls}
 
 
